@@ -1124,6 +1124,18 @@ def wiring():
                     rows.append((site0 + (f"#{k}" if k else ""), [("callee", name)] + sorted(bound)))
                     k += 1
                     continue
+                if isinstance(n.func, ast.Name):
+                    # a model class bound to a local first (`alter = self.alter_model; alter(m=…)`)
+                    try:
+                        alias_ = src_(n.func)
+                    except Exception:
+                        alias_ = callee
+                    if re.fullmatch(r"self\.[A-Za-z_]+_model(\.clone)?", alias_):
+                        args = [(f"#{i}", src_(a)) for i, a in enumerate(n.args)]
+                        args += sorted(((kw.arg or "**"), src_(kw.value)) for kw in n.keywords)
+                        rows.append((site0 + (f"#{k}" if k else ""), [("callee", alias_[5:])] + args))
+                        k += 1
+                    continue
                 if not isinstance(n.func, ast.Attribute):
                     continue
                 if isinstance(n.func.value, ast.Name) and n.func.value.id in pkgmods and n.func.attr[:1].isupper():
@@ -1137,6 +1149,14 @@ def wiring():
                     rows.append((site0 + (f"#{k}" if k else ""), [("callee", callee)] + args))
                     k += 1
                     continue
+                if isinstance(n.func, (ast.Name, ast.Attribute)) and not re.fullmatch(r"self\.[A-Za-z_]+_model(\.clone)?", callee):
+                    # the model class may have been bound to a local first (`alter = self.alter_model; alter(m=…)`)
+                    try:
+                        alias_ = src_(n.func)
+                    except Exception:
+                        alias_ = callee
+                    if re.fullmatch(r"self\.[A-Za-z_]+_model(\.clone)?", alias_):
+                        callee = alias_
                 if re.fullmatch(r"self\.[A-Za-z_]+_model(\.clone)?", callee):
                     args = [(f"#{i}", src_(a)) for i, a in enumerate(n.args)]
                     args += sorted(((kw.arg or "**"), src_(kw.value)) for kw in n.keywords)
